@@ -81,6 +81,12 @@ func Import(ctx Context, names ...string) error {
 // Changed in version 3.3: Negative values for level are no longer
 // supported (which also changes the default value to 0).
 func ImportModuleLevelObject(ctx Context, name string, globals, locals StringDict, fromlist Tuple, level int) (Object, error) {
+	// A relative import is not an absolute import of the same name: refuse
+	// it before the store or the registered implementations are consulted
+	if level != 0 {
+		return nil, ExceptionNewf(SystemError, "Relative import not supported yet")
+	}
+
 	// Module already loaded - return that
 	if module, err := ctx.GetModule(name); err == nil {
 		return module, nil
@@ -95,10 +101,6 @@ func ImportModuleLevelObject(ctx Context, name string, globals, locals StringDic
 			return nil, err
 		}
 		return module, nil
-	}
-
-	if level != 0 {
-		return nil, ExceptionNewf(SystemError, "Relative import not supported yet")
 	}
 
 	// Convert import's dot separators into path seps
